@@ -437,18 +437,30 @@ def internals_job(job):
         idx = [next(i for i, r in enumerate(p.prods_map[sym]) if r is x) for x in rules]
         table.append({'sym': sym, 'tok': tok, 'alts': [i + 1 for i in idx]})
     runs = []
+    noerr = {'sym': '', 'toks': [], 'alts': []}
+    import ak.llparser as _llp
+
+    class _RecordingError(ParsingError):
+        """ParsingError that keeps what it was constructed from (the message is all the original keeps)"""
+        def __init__(self, symbol, next_tokens, attempted_prod_rules):
+            self.rec = {'sym': symbol, 'toks': [t.name for t in next_tokens],
+                        'alts': [list(pr.production) for pr in attempted_prod_rules]}
+            super().__init__(symbol, next_tokens, attempted_prod_rules)
     for toks in all_inputs(terms, k):
         text, _ = render(toks, False)
         p.record = []
+        _llp.ParsingError = _RecordingError
         try:
             t = p.parse_counted(text, STEP_BUDGET, do_cleanup=False)
-            runs.append({'toks': toks, 'res': 'tree', 'tree': names_tree(t), 'events': p.record})
-        except ParsingError:
-            runs.append({'toks': toks, 'res': 'ParsingError', 'tree': {'n': 'none', 'k': []}, 'events': p.record})
+            runs.append({'toks': toks, 'res': 'tree', 'tree': names_tree(t), 'events': p.record, 'err': noerr})
+        except ParsingError as e:
+            runs.append({'toks': toks, 'res': 'ParsingError', 'tree': {'n': 'none', 'k': []}, 'events': p.record,
+                         'err': getattr(e, 'rec', noerr)})
         except Exception:
             pass
         finally:
             p.record = None
+            _llp.ParsingError = ParsingError
     return {'g': {'start': case['start'], 'terms': terms, 'prods': case['prods']}, 'pm': pm,
             'suffix': sorted(p._suffix_symbols), 'table': table, 'runs': runs, 'smart': smart, 'rev': rev}
 
@@ -533,7 +545,7 @@ def internals_check(ctx, jobs, what):
         with open(path, 'w') as f:
             for c in part:
                 f.write(json.dumps({k: c[k] for k in ('g', 'pm', 'suffix', 'table', 'runs')}) + '\n')
-        r = ctx.tlc('llparser/LLMachine.tla', 'SPECIFICATION Spec\nCHECK_DEADLOCK FALSE\nINVARIANT StackBound\nINVARIANT FramesChained\n'
+        r = ctx.tlc('llparser/LLMachine.tla', 'SPECIFICATION Spec\nCHECK_DEADLOCK FALSE\nINVARIANT StackBound\nINVARIANT FramesChained\nINVARIANT LongestInText\n'
                     'PROPERTY Terminates\n', env={'CASES': path}, workers=16, timeout=3600, heap='12g')
         os.unlink(path)
         nstatic = nrun = 0
